@@ -40,7 +40,8 @@ REQUIRED = {'sched.schedules': 500, 'sched.with_switch': 300, 'hook.call_points'
             'ownership.contexts_created': 1000, 'free.evaluations': 200, 'evalcache.evaluations': 50,
             'pool.statements': 40, 'reach.runner.call': 5000,
             'sched.line_schedules': 500, 'sched.line_with_switch': 300, 'hook.line_points': 50000,
-            'sched.cold_schedules': 500, 'sched.cold_with_switch': 300}
+            'sched.cold_schedules': 500, 'sched.cold_with_switch': 300,
+            'sched.cold_engine_schedules': 300}
 
 POOL = c09.POOL + [
     # strings / regex / datetime / math / branching / system: every library module
@@ -104,6 +105,7 @@ class Mon:
         self._build_shared()
         self.lp = None
         self.cold = False
+        self.cold_eng = None
         self.baton = None
         self.call_points = 0
         self.iter_points = 0
@@ -271,7 +273,7 @@ class Mon:
         return d
 
     def evaluate(self, text, seed, with_iter=False):
-        st = self.stmt(text)
+        st = self.stmt(text) if self.cold_eng is None else self.cold_eng(text)
         try:
             return ('value', c09.freeze(st.evaluate(data=self.make_data(seed, with_iter),
                                                     context=self.shared.create_child_context())))
@@ -336,6 +338,9 @@ def plan(tier, seed):
     for p in range(6 if not thorough else 14):
         shards.append({'name': 'cold-%d' % p, 'kind': 'cold', 'count': 450 if not thorough else 4000, 'narrow': p % 2 == 0,
                        'timeout': 3000})
+    for p in range(3 if not thorough else 8):
+        shards.append({'name': 'cold-engine-%d' % p, 'kind': 'cold', 'engine': True, 'count': 350 if not thorough else 3000,
+                       'timeout': 3000})
     shards.append({'name': 'free', 'kind': 'free', 'threads': 6, 'iters': 120 if not thorough else 2500, 'timeout': 3000})
     shards.append({'name': 'evalcache', 'kind': 'evalcache', 'threads': 4, 'iters': 60 if not thorough else 600})
     if thorough:
@@ -363,6 +368,13 @@ COLD_POOL = SHORT + ['$.items.distinct().len()', '$.items.sum()', '$.items.toDic
                      "format('{0}', $.n)", '$.items.skip(1).take(2).toList()', '$.items.indexOf($.n)', "'{0}'.format($.n)",
                      'assert($.n, $ > 0)', 'call(len, [$.items], {})', 'list($.n, 1).len()', 'int($.name.len())',
                      '$.items.slice(2).len()', 'switch($.n > 3 => 1, true => 2)', 'selectCase($.n > 3)', 'coalesce(null, $.n)']
+
+
+COLD_OPTIONS = {'yaql.limitIterators': 12, 'yaql.memoryQuota': 20000, 'yaql.convertSetsToLists': True,
+                'yaql.convertTuplesToLists': False}
+OPTION_SENSITIVE = ['[1, 2, 2].toSet()', '$.items.toSet()', 'range(20).toList()', 'range(13).select($ + 1).len()', "'x' * 30000",
+                    '$.items.take(2)', '[[1, 2].toSet(), 3]', 'range(12).toList().len()', '{a => [1].toSet()}', '$.items.select([$]).toList()',
+                    'list(1, 2).toSet().len()', "'ab' * 5", 'range(5).toList()']
 
 
 def run_shard(spec, rec):
@@ -513,10 +525,17 @@ def _cold(spec, mon, rec, rng):
     resolve calls; the second thread then runs to completion inside that window.  Only results and context writes
     are judged here: a definition may legitimately fill a cache on first use, as long as nobody observes it half
     filled."""
-    from yaql.language import contexts, runner, specs, yaqltypes
-    mods = (specs,) if spec.get('narrow') else (specs, yaqltypes, contexts, runner, yutils)
+    from yaql.language import contexts, factory, runner, specs, yaqltypes
+    mods = (specs,) if spec.get('narrow') else (specs, yaqltypes, contexts, runner, yutils, factory)
     mon.lp = hooks.LinePoints(hooks.module_codes(*mods)).start()
     mon.cold = True
+    cold_engine = bool(spec.get('engine'))
+
+    def new_engine():
+        # "engine" shards: a fresh copy of the engine with options of its own per schedule too (what engine(text, options)
+        # does for every statement); both threads parse and evaluate with it
+        if cold_engine:
+            mon.cold_eng = mon.eng.copy(COLD_OPTIONS)
     solo = {}
     base_of = {}
 
@@ -525,6 +544,7 @@ def _cold(spec, mon, rec, rng):
         same (now used) context does not pass: statements that only execute on first use"""
         import collections
         mon.renew_shared()
+        new_engine()
         mon.lp.trace = []
         run_schedule(mon, [job], sched.ReplayChooser([0] * 10))
         cold_trace = mon.lp.trace
@@ -544,10 +564,14 @@ def _cold(spec, mon, rec, rng):
             else:
                 fam = rng.choice(LINE_FAMILIES + [SHORT])
                 jobs = [(rng.choice(fam), rng.randrange(4), False) for _ in range(k)]
+            if cold_engine and rng.random() < 0.6:
+                t = rng.choice(OPTION_SENSITIVE)
+                jobs = [(t, rng.randrange(4), False), (rng.choice(OPTION_SENSITIVE), rng.randrange(4), False)]
             for j in jobs:
                 if j not in base_of:
                     mon.renew_shared()
-                    base_of[j] = mon.evaluate(*j)       # alone, in its own fresh prepared context
+                    new_engine()
+                    base_of[j] = mon.evaluate(*j)       # alone, in its own fresh prepared context (and engine copy)
             base = [base_of[j] for j in jobs]
             key = jobs[0][:2]
             if key not in solo:
@@ -555,6 +579,7 @@ def _cold(spec, mon, rec, rng):
                 rec.count('cold.first_use_only_points', len(solo[key][1]))
                 rec.count('cold.points_traced', solo[key][0])
             mon.renew_shared()
+            new_engine()
             npoints, first_only = solo[key]
             if first_only and rng.random() < 0.7:
                 at = max(1, rng.choice(first_only) + rng.choice((0, 0, 1)))
@@ -563,7 +588,7 @@ def _cold(spec, mon, rec, rng):
                 at = rng.randrange(1, max(npoints, 2))
             ch = sched.ReplayChooser([0] * (at + 1) + [1] * 1000000)
             desc = {'mode': 'replay', 'seq': None, 'preempt_at': at, 'then': 1, 'line': True, 'cold': True,
-                    'narrow': bool(spec.get('narrow'))}
+                    'narrow': bool(spec.get('narrow')), 'engine': cold_engine}
             fp = fingerprint(mon)
             res, b = run_schedule(mon, jobs, ch)
             if fingerprint(mon) != fp:
@@ -571,6 +596,8 @@ def _cold(spec, mon, rec, rng):
             rec.count('fingerprint.compared')
             rec.count('sched.schedules')
             rec.count('sched.cold_schedules')
+            if cold_engine:
+                rec.count('sched.cold_engine_schedules')
             if b.switches:
                 rec.count('sched.with_switch')
                 rec.count('sched.cold_with_switch')
@@ -581,6 +608,7 @@ def _cold(spec, mon, rec, rng):
                             'preempt_at': at, 'switches': b.switches})
     finally:
         mon.cold = False
+        mon.cold_eng = None
         rec.count('hook.line_points', mon.lp.count)
         mon.lp.stop()
         mon.lp = None
@@ -741,9 +769,13 @@ def replay(data, rec):
         if sc.get('cold'):
             mon.renew_shared()
             mon.cold = True
+            if sc.get('engine'):
+                mon.cold_eng = mon.eng.copy(COLD_OPTIONS)
         base = baseline(mon, jobs)
         if sc.get('cold'):
             mon.renew_shared()
+            if sc.get('engine'):
+                mon.cold_eng = mon.eng.copy(COLD_OPTIONS)
         if sc.get('preempt_at') is not None:
             sc['seq'] = [0] * (sc['preempt_at'] + 1) + [sc['then']] * 1000000
         ch = sched.DFSChooser(sc['prefix']) if sc['mode'] == 'dfs' else sched.ReplayChooser(sc['seq'])
@@ -751,7 +783,8 @@ def replay(data, rec):
             from yaql.language import contexts, expressions, runner, specs, yaqltypes
             mods = (yaqltypes, specs, yutils) if sc.get('narrow') else (yaqltypes, specs, runner, contexts, expressions, yutils)
             if sc.get('cold'):
-                mods = (specs,) if sc.get('narrow') else (specs, yaqltypes, contexts, runner, yutils)
+                from yaql.language import factory
+                mods = (specs,) if sc.get('narrow') else (specs, yaqltypes, contexts, runner, yutils, factory)
             mon.lp = hooks.LinePoints(hooks.module_codes(*mods)).start()
         try:
             res, b = run_schedule(mon, jobs, ch)
